@@ -244,6 +244,27 @@ def _harness(ctx, uid, env=None):
     return rc, read_jsonl(trace), out
 
 
+def _translate_scripts():
+    """Refresh Gen/GenScripts.v with the scripts generator alone, so that a failure of an
+    unrelated generator (the lib's translate() then copies nothing) cannot leave this file stale.
+    Returns (ok, log)."""
+    ok_all, log_all = _v.translate()          # builds the translator if needed
+    exe = os.path.join(_v.BUILD, "translate")
+    if not os.path.exists(exe):
+        return False, log_all
+    import shutil
+    with _v.Lock("translate"):
+        tmp = os.path.join(_v.BUILD, "gen_tmp_scripts")
+        shutil.rmtree(tmp, ignore_errors=True)
+        os.makedirs(tmp)
+        rc, out = _v.sh([exe, "-repo", _v.REPO, "-out", tmp, "-only", "scripts"], timeout=300)
+        if rc != 0:
+            return False, out
+        _v.write_if_changed(os.path.join(_v.THEORIES, "Gen", "GenScripts.v"),
+                            open(os.path.join(tmp, "GenScripts.v")).read())
+    return True, out
+
+
 def run_script_stage(ctx):
     t0 = time.time()
     res = {"ok": True, "violations": 0, "cov": {}}
@@ -255,7 +276,21 @@ def run_script_stage(ctx):
     # ---- proof stage (keep the caller's cov/proof fields intact) ----
     saved_cov = dict(ctx.cov)
     saved_proof = getattr(ctx, "proof", None)
+    tr_ok, tr_log = _translate_scripts()
     pr = ctx.proof_stage(MODULE, THEOREMS, TARGETS, extra_trusted=EXTRA_TRUSTED)
+    if pr.get("translator_failed") and tr_ok:
+        # some other generator failed; ours is fresh: not this stage's business
+        pr["translator_failed"] = False
+        pr["broken"] = [b for b in pr["broken"] if b != "translator"]
+        okm, _ = coq_make(TARGETS)
+        pr["ok"] = okm and not pr["broken"] and all(a is not None for a in pr["assumptions"].values())
+        res["other_generator_failed"] = True
+    if not tr_ok:
+        pr["translator_failed"] = True
+        pr["ok"] = False
+        if "translator" not in pr["broken"]:
+            pr["broken"].insert(0, "translator")
+        pr["log"] = tr_log + "\n" + pr["log"]
     pcov = {k: ctx.cov.get(k) for k in ("obligations", "discharged", "theorems", "checker_cmd", "trusted_base")}
     ctx.cov.clear()
     ctx.cov.update(saved_cov)
@@ -352,6 +387,17 @@ def run_script_stage(ctx):
             viol("proof_broken", ", ".join(pr["broken"]) or "Script/Props.v build",
                  {"log": pr["log"][-4000:], "searched_cases": len(rows) + len(rows2)},
                  signature="script-proof", failing_input=False)
+
+    # ---- thorough tier: independent re-check of the compiled proofs ----
+    if ctx.thorough and pr["ok"]:
+        saved_cov2 = ctx.cov.get("coqchk")
+        okc, outc = ctx.coqchk(["LV.Script.Props"], timeout=2400)
+        res["cov"]["coqchk"] = ctx.cov.pop("coqchk", None)
+        if saved_cov2 is not None:
+            ctx.cov["coqchk"] = saved_cov2
+        if not okc:
+            viol("proof_broken", "coqchk LV.Script.Props", {"log": outc[-3000:]},
+                 signature="script-coqchk", failing_input=False)
 
     # ---- coverage ----
     def hist(key):
